@@ -35,7 +35,7 @@ def norm_structs(draw, dirty=False, platform_hosts=False, userinfo=True, lookali
     if platform_hosts and draw(st.integers(0, 2)) == 0:
         base = draw(st.sampled_from(["facebook.com", "youtube.com", "youtu.be", "m.facebook.com", "fr-fr.facebook.com"]))
     else:
-        labs = [draw(st.sampled_from(G.ASCII_LABELS + (G.IDN_LABELS + [G.puny(l) for l in G.IDN_LABELS[:2]] if idn else [])))
+        labs = [draw(st.sampled_from(G.ASCII_LABELS + (G.IDN_LABELS + [G.puny(l) for l in G.IDN_LABELS[:2]] + ["xn--99999", "xn--0"] if idn else [])))
                 for _ in range(draw(st.integers(1, 2)))]
         if lookalikes and draw(st.integers(0, 5)) == 0 and labs[0] in G.ASCII_LABELS:
             # 'amp-' is only glued onto plain ASCII labels ('amp-xn--..' is not a meaningful A-label)
